@@ -13,7 +13,10 @@ RULE = ('per (adapter, SCREEN mode) episodes on a real Session with an accumulat
         'with PSET/PRESET/AND/OR/XOR, XOR twice, GET-draw-PUT restore); every episode also runs array-state histories on two '
         'small arrays dimensioned to fit (GET; then refused GETs - record too large for the array, rectangle off the '
         'screen -, element and header assignments, array copies, Session.set_variable, ERASE+DIM; then PUT with every '
-        'action verb, at the place of the GET or elsewhere); endpoints, rectangles and sprite rectangles are '
+        'action verb, at the place of the GET or elsewhere); every statement is written in every coordinate form it has '
+        '(absolute, STEP on the first / second / both corners, omitted first corner) after a statement of a random kind '
+        '(PSET, PRESET, LINE, LINE STEP, CIRCLE, PAINT, PUT, GET) that leaves the graphics cursor somewhere else, and '
+        'POINT(0), POINT(1) must show the cursor where the statement is documented to leave it; endpoints, rectangles and sprite rectangles are '
         'boundary-dense (screen edges, degenerate, byte-alignment widths 1..17) plus PRNG; non-trivial = every case '
         '(each changes or must provably not change pixels)')
 EXPLANATION = ('theorems (PcbV.Props.C31): pset_one_pixel, point_reads_it, line_count (Bresenham invariant by induction, with '
@@ -237,7 +240,7 @@ class Episode(object):
         out = self.session.execute(b'SCREEN %d' % mode)
         if out.strip():
             raise RuntimeError('SCREEN %d on %s: %r' % (mode, adapter, out))
-        out = self.session.execute(b'DIM A%%(%d): DIM B%%(%d): DIM J%%(%d)' % (ARR_INTS, ARR_INTS, ARR_INTS))
+        out = self.session.execute(b'DIM A%%(%d): DIM B%%(%d): DIM J%%(%d): DIM G%%(200)' % (ARR_INTS, ARR_INTS, ARR_INTS))
         if out.strip():
             raise RuntimeError('DIM: %r' % out)
         self.cur = self.snap()
@@ -395,11 +398,13 @@ class Episode(object):
         elif form == 'STEP':
             bx, by = self.point()
             err = self.ex('P%%=POINT(%d,%d)' % (bx, by))     # POINT does not move the graphics cursor ...
-            st0 = 'PSET (%d,%d),%d' % (bx, by, self.cur[by][bx])   # ... a PSET that changes nothing does
+            st0 = self.cursor_mover(bx, by, once=True)       # ... this does
             err = err or self.ex(st0)
             if err:
                 return self.problem(st0, err)
-            st = 'PSET STEP(%d,%d),%d' % (x - bx, y - by, c)
+            self.cur = self.snap()
+            self.check_cursor((bx, by), st0)
+            st = '%s STEP(%d,%d),%d' % (rng.choice(['PSET', 'PRESET']), x - bx, y - by, c)
         else:
             st = form % (x, y, c)
         err = self.ex(st)
@@ -419,6 +424,8 @@ class Episode(object):
         if c is None and got == 0:
             self.fail('pset-wrong-attribute', '%s (foreground) left attribute 0 at (%d,%d)' % (st, x, y), stmt=st)
         self.cur = now
+        if form == 'STEP' or rng.random() < 0.3:
+            self.check_cursor((x, y), st)
         # POINT returns it
         err = self.ex('P%%=POINT(%d,%d)' % (x, y))
         if err:
@@ -450,12 +457,130 @@ class Episode(object):
     def check_unchanged(self, key, what, **kw):
         return self.expect_page(key, self.cur, '%s changed the screen' % what, **kw)
 
+    # --- the graphics cursor and the coordinate forms
+
+    def cursor_mover(self, cx, cy, once=False):
+        """A statement, of a random kind, that leaves the graphics cursor ("last point referenced") at (cx, cy).
+        It may draw, with fixed attributes, so that running it again paints the same cells."""
+        rng = self.rng
+        # PAINT only where the mover runs once (run again after the point was drawn over it would fill)
+        k = rng.choice(['pset', 'pset', 'preset', 'line', 'line-step', 'box-step', 'circle', 'put', 'get']
+                       + (['paint', 'paint'] if once else []))
+        here = self.cur[cy][cx]
+        self.ctx.count('cursor-by:' + k)
+        if k == 'preset':
+            return 'PRESET (%d,%d),%d' % (cx, cy, self.attr())
+        if k == 'line':
+            return 'LINE (%d,%d)-(%d,%d),%d' % (self.point() + (cx, cy, self.attr()))
+        if k in ('line-step', 'box-step'):
+            a, b = self.point()
+            return 'LINE (%d,%d)-STEP(%d,%d),%d%s' % (a, b, cx - a, cy - b, self.attr(), ',B' if k == 'box-step' else '')
+        if k == 'circle':
+            return 'CIRCLE (%d,%d),%d,%d' % (cx, cy, rng.randint(0, 9), self.attr())
+        if k == 'paint':
+            # starts on its own border attribute: paints nothing, but references the point
+            return 'PAINT (%d,%d),%d' % (cx, cy, here)
+        if k == 'put' and 'J%' in self.sprites:
+            rows = self.sprites['J%']
+            if cx + len(rows[0]) <= self.W and cy + len(rows) <= self.H:
+                return 'PUT (%d,%d),J%%,PSET' % (cx, cy)
+        if k == 'get':
+            # the cursor is left on the second corner as written
+            w, h = rng.randint(1, 6), rng.randint(1, 6)
+            ax = cx - w + 1 if rng.random() < 0.5 else cx + w - 1
+            ay = cy - h + 1 if rng.random() < 0.5 else cy + h - 1
+            if 0 <= ax and 0 <= ay < self.H and min(ax, cx) + w * self.wf <= self.W:
+                return 'GET (%d,%d)-(%d,%d),G%%' % (ax, ay, cx, cy)
+        return 'PSET (%d,%d),%d' % (cx, cy, here)
+
+    def check_cursor(self, want, after):
+        """POINT(0), POINT(1): the graphics cursor is where the statement is documented to leave it."""
+        err = self.ex('PX%=POINT(0): PY%=POINT(1)')
+        if err:
+            return self.problem('POINT(0)', err)
+        got = (self.session.get_variable('PX%'), self.session.get_variable('PY%'))
+        self.ctx.count('cursor-checked')
+        if got != tuple(want):
+            self.fail('cursor-after:' + after.split()[0], 'after %s the graphics cursor is at %r, expected %r' % (after, got, tuple(want)),
+                      stmt=after)
+
+    def corner_form(self, x0, y0, x1, y1, forms, once=False):
+        """Write the corners (x0,y0)-(x1,y1) in one of the coordinate forms; returns (statement that places the cursor,
+        text of the corners, name of the form)."""
+        rng = self.rng
+        form = rng.choice(forms)
+        if form in ('abs', 'step2'):
+            # the cursor is somewhere else
+            cx, cy = self.point()
+            first = '(%d,%d)' % (x0, y0)
+        elif form in ('step1', 'step12'):
+            cx, cy = self.point()
+            first = 'STEP(%d,%d)' % (x0 - cx, y0 - cy)
+        else:
+            cx, cy = x0, y0
+            first = ''
+        second = 'STEP(%d,%d)' % (x1 - x0, y1 - y0) if form in ('step2', 'step12', 'omit-step') else '(%d,%d)' % (x1, y1)
+        pre = self.cursor_mover(cx, cy, once) if (form != 'abs' or rng.random() < 0.5) else None
+        self.ctx.count('form:' + form)
+        return pre, first + '-' + second, form
+
+    LINE_FORMS = ['abs', 'abs', 'abs', 'step2', 'step2', 'step1', 'step12', 'omit', 'omit-step']
+
+    def step_cursor_misc(self):
+        """CIRCLE STEP and PAINT STEP take their offset from the cursor and leave it on the point referenced."""
+        rng = self.rng
+        cx, cy = self.point()
+        if rng.random() < 0.6:
+            r = rng.randint(0, 10)
+            x = rng.randint(min(2 * r + 1, self.W // 2), max(self.W - 2 * r - 2, self.W // 2))
+            y = rng.randint(min(2 * r + 1, self.H // 2), max(self.H - 2 * r - 2, self.H // 2))
+            first = rng.choice(['STEP(%d,%d)' % (x - cx, y - cy), '(%d,%d)' % (x, y)])
+            text = 'CIRCLE %s,%d,%%d' % (first, r)
+            runs = self.draw_twice(text, self.cursor_mover(cx, cy))
+            if runs is None:
+                return
+            self.ctx.count('circle:' + first.split('(')[0])
+            self.ctx.case((self.adapter, self.mode, self.seed, len(self.history)))
+            cells = runs_cells(runs)
+            if not cells:
+                self.fail('circle-nothing', '%s drew nothing' % text.replace('%d', 'c', 1), stmt=text)
+            else:
+                xs, ys = [p[0] for p in cells], [p[1] for p in cells]
+                if min(xs) + max(xs) != 2 * x or min(ys) + max(ys) != 2 * y:
+                    self.fail('circle-centre', '%s after cursor (%d,%d): the pixels drawn span x %d..%d, y %d..%d, not centred '
+                              'on (%d,%d)' % (text, cx, cy, min(xs), max(xs), min(ys), max(ys), x, y), stmt=text)
+            self.check_cursor((x, y), text)
+        else:
+            x, y = self.point()
+            first = rng.choice(['STEP(%d,%d)' % (x - cx, y - cy), '(%d,%d)' % (x, y)])
+            pre = self.cursor_mover(cx, cy, once=True)
+            err = self.ex(pre)
+            if err:
+                return self.problem(pre, err)
+            self.cur = self.snap()
+            # on its own border attribute PAINT fills nothing
+            st = 'PAINT %s,%d' % (first, self.cur[y][x])
+            err = self.ex(st)
+            if err:
+                return self.problem(st, err)
+            self.ctx.count('paint:' + first.split('(')[0])
+            self.ctx.case((self.adapter, self.mode, self.seed, len(self.history)))
+            self.check_unchanged('paint-on-border-changed-screen', st, stmt=st)
+            self.check_cursor((x, y), st)
+
     def draw_twice(self, text, pre=None):
         """Run `text % attr` with two different attributes; returns (runs of cells written, ok).  Every cell the
         statement writes holds c1 after the first and c2 after the second run, whatever was there before."""
         c1, c2 = self.two_attrs()
+        if pre:
+            # the statement that places the graphics cursor may draw; it is idempotent (fixed attributes)
+            err = self.ex(pre)
+            if err:
+                self.problem(pre, err)
+                return None
+            self.cur = self.snap()
         before = self.cur
-        err = (pre and self.ex(pre)) or self.ex(text % c1)
+        err = self.ex(text % c1)
         if err:
             self.problem(text % c1, err)
             return None
@@ -505,19 +630,13 @@ class Episode(object):
     def step_line(self):
         rng = self.rng
         (x0, y0), (x1, y1) = self.endpoints()
-        pre = None
-        if rng.random() < 0.15:
-            # from the graphics cursor (a PSET that changes nothing moves it)
-            pre = 'PSET (%d,%d),%d' % (x0, y0, self.cur[y0][x0])
-            text = 'LINE -(%d,%d),%%d' % (x1, y1)
-        elif rng.random() < 0.1:
-            pre = 'PSET (%d,%d),%d' % (x0, y0, self.cur[y0][x0])
-            text = 'LINE -STEP(%d,%d),%%d' % (x1 - x0, y1 - y0)
-        else:
-            text = 'LINE (%d,%d)-(%d,%d),%%d' % (x0, y0, x1, y1)
+        pre, corners, form = self.corner_form(x0, y0, x1, y1, self.LINE_FORMS)
+        text = 'LINE %s,%%d' % corners
         runs = self.draw_twice(text, pre)
         if runs is None:
             return
+        if form != 'abs' or rng.random() < 0.3:
+            self.check_cursor((x1, y1), text.replace('%d', 'c'))
         cls = slope_class(x0, y0, x1, y1)
         self.ctx.count('line:' + cls)
         self.ctx.case((self.adapter, self.mode, self.seed, len(self.history)))
@@ -558,10 +677,13 @@ class Episode(object):
         (x0, y0), (x1, y1) = self.endpoints()
         if filled and (abs(x1 - x0) + 1) * (abs(y1 - y0) + 1) > 30000 and self.rng.random() < 0.8:
             x1 = min(self.W - 1, max(0, x0 + self.rng.randint(-80, 80)))
-        text = 'LINE (%d,%d)-(%d,%d),%%d,%s' % (x0, y0, x1, y1, 'BF' if filled else 'B')
-        runs = self.draw_twice(text)
+        pre, corners, form = self.corner_form(x0, y0, x1, y1, self.LINE_FORMS)
+        text = 'LINE %s,%%d,%s' % (corners, 'BF' if filled else 'B')
+        runs = self.draw_twice(text, pre)
         if runs is None:
             return
+        if form != 'abs' or self.rng.random() < 0.3:
+            self.check_cursor((x1, y1), text.replace('%d', 'c'))
         name = 'boxf' if filled else 'box'
         order = ('R' if x1 >= x0 else 'L') + ('D' if y1 >= y0 else 'U')
         self.ctx.count('%s:%s' % (name, order))
@@ -583,13 +705,22 @@ class Episode(object):
             xs.reverse()
         if rng.random() < 0.3:
             ys.reverse()
-        st = 'GET (%d,%d)-(%d,%d),%s' % (xs[0], ys[0], xs[1], ys[1], name)
+        pre, corners, form = self.corner_form(xs[0], ys[0], xs[1], ys[1], ['abs', 'abs', 'step2'], once=True)
+        if pre:
+            err = self.ex(pre)
+            if err:
+                self.problem(pre, err)
+                return None
+            self.cur = self.snap()
+        st = 'GET %s,%s' % (corners, name)
         err = self.ex(st)
         if err:
             self.problem(st, err)
             return None
         if not self.check_unchanged('get-changed-screen', st, stmt=st):
             return None
+        if form != 'abs' or rng.random() < 0.3:
+            self.check_cursor((xs[1], ys[1]), st)
         rows = region(self.cur, x0, y0, w * self.wf, h)
         self.sprites[name] = rows
         # header: width*bpp (packed) or width (planed; Tandy SCREEN 6: the requested width), height
@@ -662,6 +793,8 @@ class Episode(object):
         self.ctx.count('put:' + (op or 'default'))
         self.ctx.case((self.adapter, self.mode, self.seed, len(self.history)))
         self.expect_page('put-%s-wrong' % (op or 'XOR').lower(), expected, st, stmt=st, sprite=[w, h])
+        if rng.random() < 0.3:
+            self.check_cursor((px, py), st)
         self.add_case('putop %s %d %s %s' % ((op or 'XOR').lower(), self.bpp, hexrows(before), hexrows(rows)),
                       'ok ' + hexrows(region(self.cur, px, py, w, h)))
 
@@ -945,7 +1078,7 @@ class Episode(object):
             self.array_history()
         table = [(self.step_pset, 14), (self.step_point, 4), (self.step_line, 28), (lambda: self.step_box(False), 10),
                  (lambda: self.step_box(True), 8), (self.step_get_put_same, 10), (self.step_put_op, 12),
-                 (self.step_xor_twice, 6), (self.step_restore, 4), (self.step_junk_put, 4)]
+                 (self.step_xor_twice, 6), (self.step_restore, 4), (self.step_junk_put, 4), (self.step_cursor_misc, 5)]
         fns = [f for f, wgt in table for _ in range(wgt)]
         nfail = len(self.ctx.failures)
         for i in range(self.steps):
